@@ -524,11 +524,6 @@ Proof.
   unfold req_bool. rewrite Hc. simpl. rewrite He. destruct cc; reflexivity.
 Qed.
 
-Ltac step_req H :=
-  match goal with
-  | |- context [md_get ?key d] => destruct (md_get key d) as [[?|?|?]|] eqn:?; simpl; try (right; reflexivity); try (left; reflexivity); try tauto
-  end.
-
 Theorem decl_missing_key : forall key,
   In key ["contains_collection"; "container_type"; "name"; "include_files"] ->
   md_get key d = None -> is_error (process_decl ks d).
@@ -601,4 +596,299 @@ Proof.
   - subst x. rewrite He. exact I.
   - destruct (process_decl ks x); simpl; [|exact I].
     specialize (IH d e Hx He). destruct (process_metadata ks r); simpl; [destruct IH|exact I].
+Qed.
+
+(* ------------------------------------------------------------------------------------------ *)
+(* idioms: a coder's templates against an expected form, decided by computation                 *)
+(* ------------------------------------------------------------------------------------------ *)
+Lemma pattern_eqb_eq : forall a b, pattern_eqb a b = true -> a = b.
+Proof.
+  induction a as [|x a IH]; destruct b as [|y b]; simpl; intro H; try discriminate; [reflexivity|].
+  apply andb_true_iff in H. destruct H as [H1 H2]. rewrite (IH b H2). f_equal.
+  destruct x as [s1|[]|]; destruct y as [s2|[]|]; simpl in H1; try discriminate; try reflexivity.
+  apply String.eqb_eq in H1. congruence.
+Qed.
+Lemma patterns_eqb_eq : forall a b, patterns_eqb a b = true -> a = b.
+Proof.
+  induction a as [|x a IH]; destruct b as [|y b]; simpl; intro H; try discriminate; [reflexivity|].
+  apply andb_true_iff in H. destruct H as [H1 H2]. rewrite (IH b H2), (pattern_eqb_eq _ _ H1). reflexivity.
+Qed.
+
+Lemma inst_app : forall e arg p q, inst e arg (p ++ q) = inst e arg p +++ inst e arg q.
+Proof.
+  intros e arg p q. induction p as [|x p IH]; simpl; [reflexivity|].
+  destruct x; rewrite IH, app_assoc_s; reflexivity.
+Qed.
+
+(* formatting str(container) into a line = giving the {container_type} hole the formatted class *)
+Lemma compose_inst : forall e arg cls p,
+  inst e arg (compose cls p)
+  = inst {| e_cont := inst e arg cls; e_type := e_type e; e_tok := e_tok e |} arg p.
+Proof.
+  intros e arg cls p. unfold compose. rewrite (merge_lits_inst arg).
+  induction p as [|x p IH]; simpl; [reflexivity|].
+  destruct x as [l|h|]; simpl; try (rewrite IH; reflexivity).
+  destruct h; simpl; try (rewrite IH; reflexivity).
+  rewrite inst_app, IH. reflexivity.
+Qed.
+
+Lemma inst_type_only : forall e arg cls,
+  only_holes is_HType cls = true -> no_arg cls = true ->
+  inst e arg cls = fstring (type_env (e_type e)) cls.
+Proof.
+  intros e arg cls. unfold fstring. induction cls as [|x p IH]; simpl; intros H1 H2; [reflexivity|].
+  apply andb_true_iff in H1. apply andb_true_iff in H2. destruct H1 as [H1 H1']. destruct H2 as [H2 H2'].
+  destruct x as [l|h|]; simpl in *; try discriminate; rewrite (IH H1' H2'); [reflexivity|].
+  destruct h; try discriminate. reflexivity.
+Qed.
+
+Definition full_env (s : cspec) (tok : string) : henv :=
+  {| e_cont := cont_str s; e_type := cs_type s; e_tok := tok |}.
+
+Definition class_ok (cls : pattern) : bool := only_holes is_HType cls && no_arg cls.
+(* the coder's lines, for each container class of the backend, substitute to `expected` *)
+Definition idiom_check (lines : list pattern) (classes : list pattern) (expected : list pattern) : bool :=
+  forallb (fun cls => class_ok cls
+                      && forallb (fun p => sep_ok (compose cls p)) lines
+                      && patterns_eqb (map (fun p => hole_form param_name (compose cls p)) lines)
+                                      (map (compose cls) expected)) classes.
+
+Lemma expected_inst : forall (s : cspec) (tok lit : string) (q : pattern),
+  class_ok (cs_str s) = true ->
+  inst (line_env s tok) lit (compose (cs_str s) q) = inst (full_env s tok) lit q.
+Proof.
+  intros s tok lit q Hc. rewrite compose_inst. unfold class_ok in Hc. apply andb_true_iff in Hc.
+  destruct Hc as [H1 H2]. rewrite (inst_type_only _ _ _ H1 H2). reflexivity.
+Qed.
+
+Theorem idiom_lines : forall (cd : coder) (classes expected : list pattern) (s : cspec) (tok bank : string),
+  idiom_check (cd_lines cd) classes expected = true ->
+  In (cs_str s) classes ->
+  word_free param_name (cs_type s) = true -> word_free param_name tok = true ->
+  map (sub_arg bank) (running_code cd s tok) = map (inst (full_env s tok) (cpp_string_literal bank)) expected.
+Proof.
+  intros cd classes expected s tok bank Hchk Hin Hty Htok.
+  unfold idiom_check in Hchk. rewrite forallb_forall in Hchk. specialize (Hchk _ Hin).
+  apply andb_true_iff in Hchk. destruct Hchk as [Hchk Heq]. apply andb_true_iff in Hchk. destruct Hchk as [Hc Hsep].
+  unfold sub_arg. rewrite (fetch_lines_form cd s tok _ Hsep Hty Htok).
+  apply patterns_eqb_eq in Heq.
+  rewrite <- (map_map (fun p => hole_form param_name (compose (cs_str s) p)) (inst (line_env s tok) (cpp_string_literal bank))).
+  rewrite Heq. rewrite map_map. apply map_ext. intro q. apply expected_inst. exact Hc.
+Qed.
+
+Theorem idiom_token_init : forall (cd : coder) (classes : list pattern) (p q : pattern) (s : cspec) (tok : uname) (bank tty : string),
+  cd_init cd = Some p -> token_type s = Some tty ->
+  idiom_check [p] classes [q] = true ->
+  In (cs_str s) classes ->
+  word_free param_name (cs_type s) = true -> word_free param_name (render_name tok) = true ->
+  map (fun f => (fst f, sub_arg bank (snd f))) (token_fields cd s tok)
+  = [ (mk_vdecl tty tok, inst (full_env s (render_name tok)) (cpp_string_literal bank) q) ].
+Proof.
+  intros cd classes p q s tok bank tty Hi Ht Hchk Hin Hty Htok.
+  unfold idiom_check in Hchk. rewrite forallb_forall in Hchk. specialize (Hchk _ Hin).
+  apply andb_true_iff in Hchk. destruct Hchk as [Hchk Heq]. apply andb_true_iff in Hchk. destruct Hchk as [Hc Hsep].
+  simpl in Hsep. rewrite andb_true_r in Hsep. simpl in Heq. rewrite andb_true_r in Heq.
+  apply pattern_eqb_eq in Heq.
+  unfold sub_arg. rewrite (token_init_form cd s tok _ p tty Hi Ht Hsep Hty Htok).
+  rewrite Heq. rewrite (expected_inst s _ _ q Hc). reflexivity.
+Qed.
+
+(* the container type string of a spec whose class has only the type-name hole *)
+Lemma cont_str_form : forall (s : cspec) (cls : pattern), cs_str s = cls -> cont_str s = fstring (type_env (cs_type s)) cls.
+Proof. intros s cls H. unfold cont_str. rewrite H. reflexivity. Qed.
+
+(* ------------------------------------------------------------------------------------------ *)
+(* generated names never contain the parameter word                                             *)
+(* ------------------------------------------------------------------------------------------ *)
+Fixpoint all_word (s : string) : bool :=
+  match s with EmptyString => true | String c r => is_word c && all_word r end.
+
+Lemma digit_is_word : forall d, (d < 10)%nat -> is_word (digit_char d) = true.
+Proof. intros d H. do 10 (destruct d as [|d]; [reflexivity|]). lia. Qed.
+
+Lemma all_word_app : forall a b, all_word (a +++ b) = all_word a && all_word b.
+Proof. induction a as [|c a IH]; intro b; [reflexivity|]. cbn [append all_word]. rewrite IH, andb_assoc. reflexivity. Qed.
+
+Lemma dec_N_fuel_word : forall f n acc, all_word acc = true -> all_word (dec_N_fuel f n acc) = true.
+Proof.
+  induction f as [|f IH]; intros n acc H; [exact H|].
+  change (dec_N_fuel (S f) n acc) with
+    (if N.eqb (N.div n 10) 0 then String (digit_char (N.to_nat (N.modulo n 10))) acc
+     else dec_N_fuel f (N.div n 10) (String (digit_char (N.to_nat (N.modulo n 10))) acc)).
+  assert (Hd : all_word (String (digit_char (N.to_nat (N.modulo n 10))) acc) = true).
+  { change (is_word (digit_char (N.to_nat (N.modulo n 10))) && all_word acc = true).
+    rewrite H, andb_true_r. apply digit_is_word.
+    assert (N.modulo n 10 < 10)%N by (apply N.mod_lt; discriminate). lia. }
+  destruct (N.eqb (N.div n 10) 0); [exact Hd|apply IH; exact Hd].
+Qed.
+
+Lemma dec_nat_word : forall n, all_word (dec_nat n) = true.
+Proof. intro n. unfold dec_nat, dec_N. apply dec_N_fuel_word. reflexivity. Qed.
+
+Lemma has_word_all_word : forall w s cur, all_word s = true -> has_word w cur s = String.eqb (cur +++ s) w.
+Proof.
+  intros w s. induction s as [|c s IH]; intros cur H.
+  - cbn [has_word]. rewrite app_nil_r_s. reflexivity.
+  - cbn [all_word] in H. apply andb_true_iff in H. destruct H as [Hc Hs].
+    cbn [has_word]. rewrite Hc. rewrite (IH _ Hs). rewrite snoc_app. reflexivity.
+Qed.
+
+Lemma token_eqb_false : forall d, String.eqb ("" +++ ("token" +++ d)) param_name = false.
+Proof. intro d. reflexivity. Qed.
+
+Theorem token_name_free : forall n, word_free param_name (render_name (mk_uname "token" n)) = true.
+Proof.
+  intro n. unfold word_free, render_name. cbn [un_base un_idx].
+  rewrite has_word_all_word.
+  - rewrite token_eqb_false. reflexivity.
+  - rewrite all_word_app. rewrite dec_nat_word. reflexivity.
+Qed.
+
+(* ------------------------------------------------------------------------------------------ *)
+(* tokens: one member per use, pairwise distinct, each initialised once                         *)
+(* ------------------------------------------------------------------------------------------ *)
+Definition set_target (s : stmt) : option uname := match s with SSet t _ => Some t | _ => None end.
+
+Lemma map_flat_map : forall {A B C} (f : B -> C) (g : A -> list B) (l : list A),
+  map f (flat_map g l) = flat_map (fun x => map f (g x)) l.
+Proof. intros A B C f g l. induction l as [|x l IH]; simpl; [reflexivity|]. rewrite map_app, IH. reflexivity. Qed.
+
+Theorem tokens_per_use : forall (B : backend) (declared : list cspec) (us : list use) (ctr : nat)
+                                (vs : list (cpv * string)) (ctr' : nat) (g g' : gstate) (reps : list rep),
+  cd_alloc (b_coder B) = TokPerCall ->
+  (forall n s, lookup_collection B declared n = Some s -> has_token (b_coder B) s) ->
+  find_uses B declared us ctr = OK (vs, ctr') ->
+  translate_uses vs g = (g', reps) ->
+  let toks := map (mk_uname "token") (seq ctr (List.length us)) in
+  NoDup toks
+  /\ map vd_name (g_class g') = map vd_name (g_class g) ++ toks
+  /\ map set_target (g_book g') = map set_target (g_book g) ++ map Some toks
+  /\ List.length reps = List.length us.
+Proof.
+  intros B declared us ctr vs ctr' g g' reps Ha Htok Hf Ht toks.
+  destruct (find_uses_tokens B declared us ctr vs ctr' Ha Htok Hf) as (_ & Hnames & _ & Hlen).
+  destruct (translate_uses_state vs g g' reps Ht) as (_ & _ & Hcl & Hb & Hk).
+  split; [apply token_names_nodup|].
+  split; [rewrite Hcl, map_app; f_equal; rewrite map_flat_map; unfold toks; rewrite <- Hnames;
+          apply flat_map_ext; intro a; rewrite map_map; reflexivity|].
+  split.
+  - rewrite Hb, map_app. f_equal. rewrite map_flat_map. unfold toks. rewrite <- Hnames.
+    rewrite map_flat_map. apply flat_map_ext. intro a. rewrite !map_map. reflexivity.
+  - rewrite <- Hlen. rewrite <- (map_length r_kind), Hk, map_length. reflexivity.
+Qed.
+
+(* ------------------------------------------------------------------------------------------ *)
+(* the container classes a backend's specifications can have                                    *)
+(* ------------------------------------------------------------------------------------------ *)
+Definition kind_classes (k : mdkind) : list pattern :=
+  cc_str (mk_coll k) :: match mk_single k with Some c => [cc_str c] | None => [] end.
+Definition class_strs (ks : list mdkind) (B : backend) : list pattern :=
+  map cs_str (b_table B)
+  ++ flat_map (fun k => if String.eqb (mk_bname k) (b_accepts B) then kind_classes k else []) ks.
+
+Lemma find_kind_in : forall t ks k, find_kind t ks = Some k -> In k ks.
+Proof.
+  intros t ks k. induction ks as [|x r IH]; simpl; intro H; [discriminate|].
+  destruct (String.eqb t (mk_type x)); [inversion H; left; reflexivity|right; exact (IH H)].
+Qed.
+
+(* a successfully processed declaration comes from one of the kinds *)
+Lemma process_decl_kind : forall ks d s, process_decl ks d = OK s ->
+  exists t k, md_get "metadata_type" d = Some (MStr t) /\ find_kind t ks = Some k.
+Proof.
+  intros ks d s H. unfold process_decl in H.
+  destruct (md_get "metadata_type" d) as [[t| |]|] eqn:Et; try discriminate.
+  destruct (find_kind t ks) as [k|] eqn:Ek; [|discriminate]. exists t, k. split; [reflexivity|exact Ek].
+Qed.
+
+Theorem table_classes : forall ks (B : backend) (s : cspec), In s (b_table B) -> In (cs_str s) (class_strs ks B).
+Proof. intros ks B s H. unfold class_strs. apply in_or_app. left. apply in_map. exact H. Qed.
+
+Theorem declared_classes : forall ks (B : backend) (d : mdict) (s : cspec),
+  process_decl ks d = OK s -> cs_backend s = b_accepts B -> In (cs_str s) (class_strs ks B).
+Proof.
+  intros ks B d s H Hb. unfold class_strs. apply in_or_app. right.
+  destruct (process_decl_kind ks d s H) as (t & k & Et & Ek).
+  destruct (decl_ok_shape ks d t k Et Ek s H) as (_ & Hbk & _ & _ & _ & Hcls & _).
+  apply in_flat_map. exists k. split; [exact (find_kind_in _ _ _ Ek)|].
+  rewrite <- Hbk, Hb, String.eqb_refl. unfold kind_classes.
+  destruct Hcls as [(_ & _ & Hs & _)|(_ & c & Hc & _ & Hs & _)].
+  - left. symmetry. exact Hs.
+  - rewrite Hc. right. left. symmetry. exact Hs.
+Qed.
+
+Definition is_some {A} (o : option A) : bool := match o with Some _ => true | None => false end.
+Definition kind_tokens_ok (k : mdkind) : bool :=
+  is_some (cc_token (mk_coll k)) && match mk_single k with Some c => is_some (cc_token c) | None => true end.
+Definition has_token_check (B : backend) (ks : list mdkind) : bool :=
+  is_some (cd_init (b_coder B)) && forallb (fun s => is_some (cs_token s)) (b_table B)
+  && forallb (fun k => implb (String.eqb (mk_bname k) (b_accepts B)) (kind_tokens_ok k)) ks.
+
+Lemma find_last_in : forall n l x, find_last n l = Some x -> In x l.
+Proof.
+  intros n l. induction l as [|y r IH]; simpl; intros x Hx; [discriminate|].
+  destruct (find_last n r) as [z|] eqn:Ez; [inversion Hx; subst; right; apply IH; reflexivity|].
+  destruct (String.eqb n (cs_name y)); [inversion Hx; left; reflexivity|discriminate].
+Qed.
+
+Lemma lookup_has_token : forall (B : backend) (ks : list mdkind) (declared : list cspec) (n : string) (s : cspec),
+  has_token_check B ks = true ->
+  check_backends B declared = OK tt ->
+  Forall (fun s => exists d, process_decl ks d = OK s) declared ->
+  lookup_collection B declared n = Some s -> has_token (b_coder B) s.
+Proof.
+  intros B ks declared n s Hchk Hb Hd Hl.
+  unfold has_token_check in Hchk. apply andb_true_iff in Hchk. destruct Hchk as [Hchk Hks].
+  apply andb_true_iff in Hchk. destruct Hchk as [Hinit Htab].
+  assert (Htok : is_some (cs_token s) = true).
+  { unfold lookup_collection in Hl.
+    destruct (find_last n declared) as [x|] eqn:E1.
+    - inversion Hl; subst x. pose proof (find_last_in _ _ _ E1) as Hin.
+      rewrite Forall_forall in Hd. destruct (Hd s Hin) as (d & Hp).
+      pose proof (check_backends_ok _ _ Hb s Hin) as Hbk.
+      destruct (process_decl_kind ks d s Hp) as (t & k & Et & Ek).
+      destruct (decl_ok_shape ks d t k Et Ek s Hp) as (_ & Hbn & _ & _ & _ & Hc & _).
+      rewrite forallb_forall in Hks. specialize (Hks k (find_kind_in _ _ _ Ek)).
+      rewrite <- Hbn, Hbk, String.eqb_refl in Hks. simpl in Hks. unfold kind_tokens_ok in Hks.
+      apply andb_true_iff in Hks. destruct Hks as [Hk1 Hk2].
+      destruct Hc as [(_ & _ & _ & Ht & _)|(_ & c & Hc & _ & _ & Ht)].
+      + rewrite Ht. exact Hk1.
+      + rewrite Ht. rewrite Hc in Hk2. exact Hk2.
+    - rewrite forallb_forall in Htab. apply Htab. exact (find_last_in _ _ _ Hl). }
+  unfold has_token, token_type.
+  destruct (cd_init (b_coder B)) as [p|]; [|discriminate].
+  destruct (cs_token s) as [q|]; [|discriminate].
+  eexists. eexists. split; reflexivity.
+Qed.
+
+Theorem tokens_per_use_checked : forall (B : backend) (ks : list mdkind) (declared : list cspec) (us : list use) (ctr : nat)
+                                (vs : list (cpv * string)) (ctr' : nat) (g g' : gstate) (reps : list rep),
+  cd_alloc (b_coder B) = TokPerCall -> has_token_check B ks = true ->
+  check_backends B declared = OK tt ->
+  Forall (fun s => exists d, process_decl ks d = OK s) declared ->
+  find_uses B declared us ctr = OK (vs, ctr') ->
+  translate_uses vs g = (g', reps) ->
+  let toks := map (mk_uname "token") (seq ctr (List.length us)) in
+  NoDup toks
+  /\ map vd_name (g_class g') = map vd_name (g_class g) ++ toks
+  /\ map set_target (g_book g') = map set_target (g_book g) ++ map Some toks
+  /\ List.length reps = List.length us.
+Proof.
+  intros B ks declared us ctr vs ctr' g g' reps Ha Hchk Hb Hd.
+  apply (tokens_per_use B declared us ctr vs ctr' g g' reps Ha).
+  intros n s. apply (lookup_has_token B ks); assumption.
+Qed.
+
+(* container type strings for a finite list of class formats: decided per class *)
+Definition cont_forms_check (classes : list pattern) (forms : list pattern) : bool :=
+  forallb (fun cls => class_ok cls && existsb (pattern_eqb (merge_lits cls)) forms) classes.
+Theorem cont_str_forms : forall (classes forms : list pattern) (s : cspec),
+  cont_forms_check classes forms = true -> In (cs_str s) classes ->
+  exists f, In f forms /\ cont_str s = fstring (type_env (cs_type s)) f.
+Proof.
+  intros classes forms s Hc Hin. unfold cont_forms_check in Hc. rewrite forallb_forall in Hc.
+  specialize (Hc _ Hin). apply andb_true_iff in Hc. destruct Hc as [_ He].
+  apply existsb_exists in He. destruct He as (f & Hf & Heq). apply pattern_eqb_eq in Heq.
+  exists f. split; [exact Hf|]. unfold cont_str, fstring. rewrite <- Heq.
+  rewrite (merge_lits_inst ""). reflexivity.
 Qed.
